@@ -161,6 +161,14 @@ class Check(BaseCheck):
                 stats.monitor("minimize monitored")
                 if fun(calls.minimize[0]["result"].x) > fun(calls.minimize[0]["x0"]) + 1e-12:
                     fails.append(core.Failure("monitor", "minimize does not increase the objective", "", dict(case, kind="scm")))
+                # the objective handed to the optimiser is the model's area-distortion objective (at the start, at the result, at a random point)
+                for xx in (calls.minimize[0]["x0"], x, np.asarray(x) + 0.05 * gen.rng_for(self.seed, "c18obj").normal(size=8)):
+                    xx = np.asarray(xx, float)
+                    ro = wire.Reply(drv.ask("darea %s %s %s %s" % (wire.verts(m.v), wire.elems(m.t), rawc([xx[0] + 1j * xx[1], xx[2] + 1j * xx[3], xx[4] + 1j * xx[5], xx[6] + 1j * xx[7]]), wire.verts(sph))))
+                    if ro.status != "ok" or abs(float(fun(xx)) - ro.flt()) > 1e-9 * max(1.0, abs(float(fun(xx)))):
+                        fails.append(core.Failure("correspondence", "Moebius area-distortion objective vs model", "at x=%s: implementation %.10g" % (np.round(xx, 3).tolist(), float(fun(xx))), dict(case, kind="scm")))
+                        break
+                stats.monitor("Moebius objective compared with the model")
         return fails
 
     def known_finding(self, k):
@@ -273,4 +281,22 @@ class Check(BaseCheck):
             return (q[0] - q[2]) * (q[1] - q[3]) / ((q[0] - q[3]) * (q[1] - q[2]))
         if abs(cr(z[idx]) - cr(z2[idx])) > 1e-6 * max(1, abs(cr(z[idx]))):
             return core.Violation("mobius", "cross-ratio not preserved", case)
+
+        def objective(mesh, mp):          # the area-distortion objective by its definition, evaluated independently of the implementation
+            with core.quiet():
+                a0 = mesh.tria_areas(); a1 = TriaMesh(mp, mesh.t).tria_areas()
+            q = np.abs(np.log((a1 / a1.sum()) / (a0 / a0.sum())))
+            return float(q[np.isfinite(q)].mean())
+        if objective(m, ms) > objective(m, s) + 1e-9:
+            return core.Violation("mobius", "area distortion of the Moebius image (%.6g) exceeds that of the input (%.6g)" % (objective(m, ms), objective(m, s)), case)
+        # an input that is already optimal: a polyhedron inscribed in the unit sphere mapped onto itself (objective 0)
+        pv, pt = gen.icosphere(1 if len(v) < 400 else 2)
+        pv = pv + 0.08 * rng.normal(size=pv.shape); pv /= np.linalg.norm(pv, axis=1)[:, None]
+        with core.quiet():
+            pm = TriaMesh(pv, pt)
+        mob2 = core.call(conformal.mobius_area_correction_spherical, pm, pv)
+        if mob2[0] != "ok":
+            return core.Violation("mobius", "raised on an inscribed polyhedron: %s" % (mob2[1:],), case)
+        if objective(pm, mob2[1][0]) > 1e-7:
+            return core.Violation("mobius", "an optimal input (objective 0) is mapped to an image with area distortion %.6g" % objective(pm, mob2[1][0]), case)
         return None
